@@ -335,6 +335,9 @@ type c19Effective struct {
 	ResponderN  int
 	WorkDir     string
 	HasCRL      bool
+	// Backend is the kind of store the provisioned repository really creates ("disk", "memory", "" when CRL checking is
+	// off): the storage_type option observed by its effect, not by the parsed constant
+	Backend string
 }
 
 func (e c19Effective) String() string {
@@ -389,6 +392,16 @@ func c19Load(syntax string, text []byte) (eff c19Effective) {
 			eff.Fetch, eff.Strict = c.CDPConfig.CRLFetchModeParsed, c.CDPConfig.CRLCDPStrict
 		}
 	}
+	if chk := v.VerifCRLChecker(); chk != nil && chk.VerifRepository() != nil {
+		switch t := fmt.Sprintf("%T", chk.VerifRepository().Factory); {
+		case strings.Contains(t, "LevelDb"):
+			eff.Backend = "disk"
+		case strings.Contains(t, "Map"):
+			eff.Backend = "memory"
+		default:
+			eff.Backend = t
+		}
+	}
 	if v.OCSPConfig != nil {
 		eff.Cache, eff.AIAStrict, eff.ResponderN = v.OCSPConfig.DefaultCacheDurationParsed, v.OCSPConfig.OCSPAIAStrict, len(v.OCSPConfig.TrustedResponderCerts)
 	}
@@ -411,8 +424,14 @@ func (c c19Conf) documented(e *c19Env) (eff c19Effective, mustFail bool) {
 	eff.Mode = map[string]config.RevocationCheckMode{"": config.RevocationCheckModePreferOCSP, "prefer_ocsp": config.RevocationCheckModePreferOCSP, "prefer_crl": config.RevocationCheckModePreferCRL,
 		"ocsp_only": config.RevocationCheckModeOCSPOnly, "crl_only": config.RevocationCheckModeCRLOnly, "disabled": config.RevocationCheckModeDisabled}[c.val(dMode)]
 	eff.Storage = config.Disk
+	if c.crlEnabled() {
+		eff.Backend = "disk"
+	}
 	if c.val(dStorage) == "memory" {
 		eff.Storage = config.Memory
+		if c.crlEnabled() {
+			eff.Backend = "memory"
+		}
 	}
 	eff.Interval = 30 * time.Minute
 	if c.val(dInterval) == "1m" {
@@ -454,6 +473,7 @@ func c19Same(a, b c19Effective, crlOn bool) string {
 	cmp("trusted_responder_certs", a.ResponderN, b.ResponderN)
 	if crlOn {
 		cmp("storage_type", a.Storage, b.Storage)
+		cmp("storage backend in use", a.Backend, b.Backend)
 		cmp("update_interval", a.Interval, b.Interval)
 		cmp("signature_validation_mode", a.SigMode, b.SigMode)
 		cmp("crl_urls", a.URLs, b.URLs)
